@@ -585,5 +585,5 @@ def bld_stream(ctx, which, flags_choices, n_quick, n_thorough, **kw):
                            "the in-progress count per worker are compared with the settled model (extracted Srv.v + Builder.v)" % n)
     st.per_shard = 2   # a scenario takes about a second of real time
     st.prepare = lambda c: bld_annotate([c])[0]
-    st.shrink_budget = 32   # a failing end-to-end scenario can take many seconds
+    st.shrink_budget = 10   # a failing end-to-end scenario can take many seconds
     return st
